@@ -58,6 +58,7 @@ partial def parseItems : List String → List Value.Item → Option (List Value.
 def step (u : Unit) (ws : List String) : Unit × String :=
   match ws with
   | ["newcase"] => (u, "ok")
+  | ["note"] => (u, "ok")
   | "etx" :: rest => (u, match parseCfg rest, kvBool rest "inscope", kvNat rest "value", kvNat rest "gaslimit", kvNat rest "tip",
         kvNat rest "feecap", kvNat rest "balance", kvNat rest "cachelen", kvBool rest "alok", kvNat rest "alsize", kvBool rest "eligible" with
       | some c, some sc, some v, some g, some t, some f, some b, some cl, some ao, some as, some el =>
